@@ -259,6 +259,38 @@ def d4_extent_and_readinto(ctx):
     ctx.info['readinto_sites'] = k
 
 
+def d3b_single_member_archives(ctx):
+    """A compressed archive is written in one piece.  A file that is opened for appending and compressed (gzip.open(..., 'a'), to_csv(...,
+    mode='a', compression=...)) consists of several independent gzip members: cut exactly at a member boundary it is still a valid archive
+    and the reader returns a shorter table without any error - wrong numbers from a partial file."""
+    rule = 'C18-D3'
+    n = 0
+    for mn in ('input.json', 'input.dobs', 'input.pandas', 'input.misc', 'input.bdio', 'input.sfcf', 'input.openQCD', 'input.hadrons'):
+        try:
+            m = ctx.repo.mod(mn)
+        except Exception:
+            continue
+        for c in walk(m.tree):
+            if not isinstance(c, ast.Call):
+                continue
+            name = unparse(c.func)
+            mode = kwarg(c, 'mode')
+            if name in ('gzip.open', 'bz2.open', 'lzma.open') and mode is None and len(c.args) >= 2:
+                mode = c.args[1]
+            compressed = name in ('gzip.open', 'bz2.open', 'lzma.open') or (kwarg(c, 'compression') is not None and not (isinstance(kwarg(c, 'compression'), ast.Constant) and kwarg(c, 'compression').value in (None, 'infer')))
+            if not compressed:
+                continue
+            n += 1
+            key = '%s#archive-write[%s]' % (m.relpath.replace('pyerrors/', ''), unparse(c)[:50])
+            appends = mode is not None and not (isinstance(mode, ast.Constant) and isinstance(mode.value, str) and 'a' not in mode.value)
+            if appends:
+                ctx.violated(rule, key, '`%s` writes a compressed file in append mode (mode=%s): the archive has several members, a copy that ends at a member boundary decompresses '
+                             'without error and is read back as a shorter table' % (unparse(c)[:80], unparse(mode)), m.loc(c))
+            else:
+                ctx.holds(rule, key, 'compressed stream written / read as one member')
+    ctx.floor('C18-D3 compressed opens / writes', n, 5)
+
+
 def d3_archives(ctx):
     rule = 'C18-D3'
     js = ctx.repo.mod('input.json')
@@ -338,6 +370,7 @@ def run(ctx):
     ctx.guarded('C18-D2', 'sfcf@text', d2_text, ctx)
     ctx.guarded('C18-D2', 'input@extent-and-readinto', d4_extent_and_readinto, ctx)
     ctx.guarded('C18-D3', 'archives', d3_archives, ctx)
+    ctx.guarded('C18-D3', 'archives@single-member', d3b_single_member_archives, ctx)
 
 
 SELFTEST = [
